@@ -505,3 +505,8 @@ mod tests {
         Ok(())
     }
 }
+
+// Verification hook (inert unless built by `cargo kani`): harnesses for the private items of this module.
+#[cfg(kani)]
+#[path = "/verif/kani/incrate/h_npy_header.rs"]
+mod verif_kani;
